@@ -96,6 +96,10 @@ def _retrieval_recall_update_input_check(
         raise ValueError(
             f"input and target must be of the same shape, got input.shape={input.shape} and target.shape={target.shape}."
         )
+    if indexes is not None and indexes.shape != input.shape:
+        raise ValueError(
+            f"indexes and input must be of the same shape, got indexes.shape={indexes.shape} and input.shape={input.shape}."
+        )
     if num_tasks == 1:
         if input.dim() != 1:
             raise ValueError(
